@@ -9,8 +9,18 @@ Inductive case :=
 (* stream 2: OBJ lines -> ReadMesh -> WriteMeshes (tokenised) -> ReadMesh *)
 | CFile (file : list line) (impl_read1 : res rd) (impl_lines : res (list line)) (impl_read2 : res rd).
 
-Definition rd_eqb (a b : rd) : bool := list_eqb mesh_eqb (fst a) (fst b) && name_eqb (snd a) (snd b).
-Definition lines_eqb := list_eqb line_eqb.
+(* Only what the property talks about is compared (a rewrite of the Go code that keeps it must stay quiet):
+   a text by its validity, its direct meaning and its mtllib names - not line by line; a reader result by the
+   observation of its groups, their well-formedness (the writer's precondition) and the library names - not
+   by the numbering of the de-duplicated vertices. *)
+Definition gobs_list_eqb := list_eqb gobs_eqb.
+Definition rd_eqb (a b : rd) : bool :=
+  gobs_list_eqb (map obs (fst a)) (map obs (fst b))
+  && list_eqb Bool.eqb (map wf_mesh (fst a)) (map wf_mesh (fst b))
+  && name_eqb (snd a) (snd b).
+Definition lines_eqb (a b : list line) : bool :=
+  Bool.eqb (valid a) (valid b) && gobs_list_eqb (file_groups a) (file_groups b)
+  && name_eqb (lib_names a) (lib_names b).
 Definition read := read_gen cfg_full.      (* /repo HEAD: f82d47b, 331d6c1, ca6f159 *)
 
 (* model vs implementation *)
@@ -29,8 +39,6 @@ Definition corr_ok (c : case) : bool :=
       | _ => true
       end
   end.
-
-Definition gobs_list_eqb := list_eqb gobs_eqb.
 
 (* the property itself, evaluated on what the implementation returned: the written text is judged by the
    direct line semantics (file_groups), the read-back meshes by their observation; the reader model is not used *)
